@@ -296,6 +296,17 @@ def _format_language(c: ClassInfo, fmt: FuncInfo) -> Optional[tuple[str, str]]:
                 i += 1
         return out, f'strftime({f!r})'
     parts = _fstring_parts(e)
+    ann = norm(fmt.node.args.args[1].annotation) if fmt.node.args.args[1].annotation else ''
+    if ann == 'decimal.Decimal':
+        # frozen table of the decimal module: str() / repr-free '{}' use scientific notation when the exponent is positive or the
+        # adjusted exponent is below -6; the 'f' presentation type never does.  Domain: finite, non-negative (the sign is an operator node).
+        fixed = '[0-9]+(?:\\.[0-9]+)?'
+        sci = fixed + '(?:E[+-]?[0-9]+)?'
+        n = norm(e)
+        if n in (f'str({v})', f"format({v})", f"format({v}, '')") or (parts == [('val', v)]):
+            return sci, f'{n}: str() of a Decimal'
+        if n in (f"format({v}, 'f')", f"'{{:f}}'.format({v})", f"'{{0:f}}'.format({v})", f"{v}.__format__('f')") or parts == [('val', v + '|f')]:
+            return fixed, f'{n}: fixed-point notation'
     if parts and any(k == 'val' for k, _ in parts):
         out = ''
         for k, t in parts:
@@ -322,7 +333,7 @@ def _format_language(c: ClassInfo, fmt: FuncInfo) -> Optional[tuple[str, str]]:
 
 
 def rule_fmt_lang(ctx: RuleContext, p: Program, g: rx.Grammar, rid: str) -> None:
-    ctx.rule(rid, 'the set of strings _format_value can produce for every value of a typed domain (date, bool) is included in '
+    ctx.rule(rid, 'the set of strings _format_value can produce for every value of a typed domain (date, bool, non-negative finite decimal) is included in '
                   'the language of the class\'s terminal')
     n = 0
     for c in p.registered('token_model'):
@@ -330,8 +341,8 @@ def rule_fmt_lang(ctx: RuleContext, p: Program, g: rx.Grammar, rid: str) -> None
         if not isinstance(fmt, FuncInfo) or len(fmt.params) != 2:
             continue
         ann = norm(fmt.node.args.args[1].annotation) if fmt.node.args.args[1].annotation else ''
-        if ann in ('str', 'decimal.Decimal', ''):
-            continue     # string / decimal domains are not visible in the code shape (see not_decided)
+        if ann in ('str', ''):
+            continue     # string domains are not visible in the code shape (see not_decided)
         lang = _format_language(c, fmt)
         rule = p.class_const(c, 'RULE')
         tname = rule.value if isinstance(rule, ast.Constant) else None
@@ -345,10 +356,13 @@ def rule_fmt_lang(ctx: RuleContext, p: Program, g: rx.Grammar, rid: str) -> None
         ok, w = rx.included(rx.from_regex(lang[0]), t)
         ctx.check(ok, rid, site, f'{lang[1]} -> /{lang[0]}/ vs {tname}',
                   f'{lang[1]} can produce {w!r}, which is not a {tname} ({g.terminals[tname].pattern.to_regexp()!r}); '
-                  f'e.g. years below 1000 are not zero-padded by %Y on this platform, so such a date does not lex back', fmt.where,
+                  + ('str() of a Decimal switches to scientific notation for a positive exponent or an adjusted exponent below -6 '
+                     '(Decimal("0.0000001") -> "1E-7", Decimal("100.00").normalize() -> "1E+2"), so such a number does not lex back'
+                     if ann == 'decimal.Decimal' else
+                     'e.g. years below 1000 are not zero-padded by %Y on this platform, so such a date does not lex back'), fmt.where,
                   note=f'/{lang[0]}/ included in {tname}')
-    if n < 2:
-        raise AnalysisError(f'FMT-LANG: only {n} typed formatters found (Date, Bool confirmed)')
+    if n < 3:
+        raise AnalysisError(f'FMT-LANG: only {n} typed formatters found (Date, Bool, Number confirmed)')
 
 
 def rule_esc_table(ctx: RuleContext, p: Program, g: rx.Grammar, rid: str) -> None:
